@@ -25,23 +25,36 @@ func init() {
 		{ID: "E1.jwks.single-flight.create", Fn: "client/rp.(*remoteKeySet).keysFromRemote", P: []string{"r", "ctx"}, Kind: "store", Pat: "store($r.inflight, rp.newInflight())", Max: 1,
 			Why: "a new download is started only when none is in flight (concurrent misses share one)",
 			Req: []string{"nil($r.inflight)"}},
-		{ID: "E1.jwks.single-flight.start", Fn: "client/rp.(*remoteKeySet).keysFromRemote", P: []string{"r", "ctx"}, Kind: "go", Pat: "gostmt($r.updateKeys($c))", Max: 1,
+		{ID: "E1.jwks.single-flight.start", AltOf: "E1.jwks.single-flight.started", Fn: "client/rp.(*remoteKeySet).keysFromRemote", P: []string{"r", "ctx"}, Kind: "go", Pat: "gostmt($r.updateKeys($c))", Max: 1,
+			Why: "the shared download runs once per inflight record and must not be cancelled by the first caller's context (other callers wait for it)",
+			Req: []string{"eq($r.inflight, rp.newInflight())", "detachedCtx($c)"}},
+		// the same start when the goroutine is handed the record it owns
+		{ID: "E1.jwks.single-flight.start.handed", AltOf: "E1.jwks.single-flight.started", Fn: "client/rp.(*remoteKeySet).keysFromRemote", P: []string{"r", "ctx"}, Kind: "go", Pat: "gostmt($r.updateKeys($c, $r.inflight))", Max: 1,
 			Why: "the shared download runs once per inflight record and must not be cancelled by the first caller's context (other callers wait for it)",
 			Req: []string{"eq($r.inflight, rp.newInflight())", "detachedCtx($c)"}},
 		{ID: "E1.jwks.single-flight.only-start", Fn: "client/rp.(*remoteKeySet).keysFromRemote", Kind: "go", Max: 1},
-		{ID: "E1.jwks.update.done-once", Fn: "client/rp.(*remoteKeySet).updateKeys", P: []string{"r", "ctx"}, Kind: "call", Pat: "$r.inflight.done($keys, $err)", Max: 1,
+		{ID: "E1.jwks.update.done-once", AltOf: "E1.jwks.update.signals", Arity: 2, Fn: "client/rp.(*remoteKeySet).updateKeys", P: []string{"r", "ctx"}, Kind: "call", Pat: "$r.inflight.done($keys, $err)", Max: 1,
 			Req: []string{"def($keys, $r.fetchRemoteKeys(_), 0)", "def($err, $r.fetchRemoteKeys(_), 1)"}},
-		{ID: "E1.jwks.update.release", Fn: "client/rp.(*remoteKeySet).updateKeys", P: []string{"r", "ctx"}, Kind: "ret any", Min: 1, Max: 1,
+		{ID: "E1.jwks.update.done-once.handed", AltOf: "E1.jwks.update.signals", Arity: 3, Fn: "client/rp.(*remoteKeySet).updateKeys", P: []string{"r", "ctx", "own"}, Kind: "call", Pat: "$own.done($keys, $err)", Max: 1,
+			Req: []string{"def($keys, $r.fetchRemoteKeys(_), 0)", "def($err, $r.fetchRemoteKeys(_), 1)"}},
+		{ID: "E1.jwks.update.release", AltOf: "E1.jwks.update.released", Arity: 2, Fn: "client/rp.(*remoteKeySet).updateKeys", P: []string{"r", "ctx"}, Kind: "ret any", Min: 1, Max: 1,
 			Why: "every path signals the waiters once and frees the inflight slot",
 			Req: []string{"called($r.inflight.done(__))", "eq($r.inflight, nil)", "called($r.mu.Lock())"}},
+		{ID: "E1.jwks.update.release.handed", AltOf: "E1.jwks.update.released", Arity: 3, Fn: "client/rp.(*remoteKeySet).updateKeys", P: []string{"r", "ctx", "own"}, Kind: "ret any", Min: 1, Max: 1,
+			Why: "every path signals the waiters once and frees the inflight slot",
+			Req: []string{"called($own.done(__))", "eq($r.inflight, nil)", "called($r.mu.Lock())"}},
 		{ID: "E1.jwks.inflight.publish-before-close", Fn: "client/rp.(*inflight).done", P: []string{"i", "keys", "err"}, Kind: "call", Pat: "close($i.doneCh)", Max: 1,
 			Why: "results are written before the channel close that publishes them",
 			Req: []string{"eq($i.keys, $keys)", "eq($i.err, $err)"}},
 		{ID: "E8.jwks.inflight.result", Fn: "client/rp.(*inflight).result", P: []string{"i"}, Kind: "ret any", Pat: "ret($i.keys, $i.err)", Max: 1, Only: true},
 		{ID: "E8.jwks.fetch", Fn: "client/rp.(*remoteKeySet).fetchRemoteKeys", P: []string{"r", "ctx"}, Kind: "ret ok", Pat: "ret($ks.Keys, nil)", Max: 1,
-			Req: []string{"ok(httphelper.HttpRequest($r.httpClient, $req, $ks))", "def($req, http.NewRequestWithContext($ctx, _, $r.jwksURL, _), 0)"}},
-		{ID: "E1.jwks.exact-match", Fn: "client/rp.(*remoteKeySet).exactMatch", P: []string{"r", "jwkID", "jwsID"}, Kind: "ret any", Pat: "ret($jwkID == $jwsID)", Max: 1,
-			Req: []string{`neq($jwkID, "") || neq($jwsID, "")`}},
+			Req: []string{"ok(httphelper.HttpRequest($r.httpClient, $req, $ks)) || ok(httphelper.HttpRequest($r.httpClient, $req, &$ks))", "def($req, http.NewRequestWithContext($ctx, _, $r.jwksURL, _), 0)"}},
+		// exactMatch is true exactly when the ids are equal and (not both empty, or the remote check is skipped); stated on the
+		// outcomes so that any boolean spelling of it is accepted
+		{ID: "E1.jwks.exact-match.true", Fn: "client/rp.(*remoteKeySet).exactMatch", P: []string{"r", "jwkID", "jwsID"}, Kind: "ret ok",
+			Req: []string{`eq($jwkID, $jwsID) || (eq($jwkID, "") && eq($jwsID, ""))`, `neq($jwkID, "") || neq($jwsID, "") || true($r.skipRemoteCheck)`}},
+		{ID: "E1.jwks.exact-match.false", Fn: "client/rp.(*remoteKeySet).exactMatch", P: []string{"r", "jwkID", "jwsID"}, Kind: "ret fail",
+			Req: []string{`neq($jwkID, $jwsID) || (eq($jwkID, "") && false($r.skipRemoteCheck)) || (eq($jwsID, "") && false($r.skipRemoteCheck))`}},
 		{ID: "E1.jwks.verify.remote-after-cache-miss", Fn: "client/rp.(*remoteKeySet).VerifySignature", P: []string{"r", "ctx", "jws"}, Kind: "ret any", Pat: "ret(res(0, $r.verifySignatureRemote(__)), _)", Max: 1,
 			Why: "the remote refresh happens at most once per verification, only after the cache could not decide",
 			Req: []string{"nil($payload)", "ok($r.verifySignatureCached(__))", "def($payload, $r.verifySignatureCached(__), 0)"}},
@@ -137,7 +150,8 @@ func RunLockset(c *Ctx, pkg, typ, mutex string, fields []string, exceptions []al
 	}
 	for k := range exc {
 		if !used[k] {
-			c.R.Find(Finding{Rule: "vacuity", Func: k, Construct: "E6.R-lockset exception", Pos: "-", Msg: "lockset exception no longer matches any access: remove or re-point it"})
+			// an exception the code no longer needs is not a defect of the code
+			c.R.Extra["lockset_exception_unused:"+k] = true
 		}
 	}
 }
